@@ -64,6 +64,12 @@ use crate::mqtt::result_code::{
     ConnectReasonCode, ConnectReturnCode, DisconnectReasonCode, MqttError, PubrecReasonCode,
 };
 
+#[cfg(mqtt_protocol_core_verif)]
+#[path = "core_verif_hooks.rs"]
+mod verif_hooks;
+#[cfg(mqtt_protocol_core_verif)]
+pub use verif_hooks::VerifState;
+
 /// MQTT protocol maximum packet size limit
 /// 1 (fixed header) + 4 (remaining length) + 128^4 (maximum remaining length value)
 const MQTT_PACKET_SIZE_NO_LIMIT: u32 = 1 + 4 + 128 * 128 * 128 * 128;
